@@ -5,6 +5,15 @@ import CtrlVerif.Driver.Config
 import CtrlVerif.Driver.Index
 import CtrlVerif.Driver.FRD
 import CtrlVerif.Driver.Dt
+import CtrlVerif.Driver.Nyquist
+import CtrlVerif.Driver.Margins
+import CtrlVerif.Driver.IC
+import CtrlVerif.Driver.MatEqn
+import CtrlVerif.Driver.TimeResp
+import CtrlVerif.Driver.Eval
+import CtrlVerif.Driver.Canon
+import CtrlVerif.Driver.IOSys
+import CtrlVerif.Driver.Flat
 
 namespace CtrlVerif.Driver
 
@@ -18,6 +27,15 @@ def dispatch (line : String) : String :=
   | "idx" :: rest => Index.handle rest
   | "frd" :: rest => FRD.handle rest
   | "dt" :: rest => DtFam.handle rest
+  | "nyq" :: rest => Nyquist.handle rest
+  | "mg" :: rest => Margins.handle rest
+  | "ic" :: rest => IC.handle rest
+  | "mateqn" :: rest => MatEqn.handle rest
+  | "tr" :: rest => TimeResp.handle rest
+  | "ev" :: rest => Eval.handle rest
+  | "c15" :: rest => Canon.handle rest
+  | "io" :: rest => IO.handle rest
+  | "flat" :: rest => Flat.handle rest
   | f :: _ => s!"bad-op family:{f}"
 
 end CtrlVerif.Driver
